@@ -215,7 +215,12 @@ func rangeInv(cfg *Config) bool {
 // says what the file says; invalid values are rejected.
 func HarnessParse() {
 	dec := buildDecoded()
-	cfg, err := ParseData(verifrt.TOMLBytes(dec))
+	failKind := int(verifrt.U8("toml.fail") % 3)
+	cfg, err := ParseData(verifrt.TOMLBytesFail(dec, failKind))
+	if failKind != 0 {
+		verifrt.Cover("C09/C12: a file the decoder rejects")
+		verifrt.Assert(err != nil, "C09/C12: a file that does not decode is reported as an error")
+	}
 	if err != nil {
 		verifrt.Cover("C09: rejected with an error")
 	} else {
